@@ -239,9 +239,9 @@ fn huge_case(ctx: &mut Ctx) {
         let mut rng = crate::rng::Rng::new(seed);
         // a 96-byte window of random bytes straddling 2^32 (or the end of the buffer, or 2^32 exactly)
         let base: usize = match rng.below(4) {
-            0 => (1usize << 32) - 48,
-            1 => (1usize << 32) - 8 - rng.usize_below(8),
-            2 => 1usize << 32,
+            0 => super::util::G4.wrapping_sub(48),
+            1 => super::util::G4.wrapping_sub(8 + rng.usize_below(8)),
+            2 => super::util::G4,
             _ => len - 96,
         };
         for i in 0..96 {
